@@ -9,6 +9,7 @@ import (
 	"net/http"
 	"net/http/httptest"
 	"strings"
+	"sync"
 	"time"
 
 	"github.com/gin-gonic/gin"
@@ -78,6 +79,75 @@ type Hist struct {
 	TZ   int    `json:"tz,omitempty"`   // host zone offset in seconds (C02)
 	Seq  uint64 `json:"seq,omitempty"`  // position of the global record counter at the start (C10)
 	Base bool   `json:"base,omitempty"` // all subscribers share one case-unique SUPI base, even with an empty suffix
+	// RGNums: the numbers the three rating groups carry on the wire (requests, accounts, recharges, records); the
+	// harness itself counts rating groups 1..3 throughout.  Absent = 1, 2, 3.
+	RGNums []int32 `json:"rgNums,omitempty"`
+}
+
+// rating group numbers per subscriber (SUPI -> the numbers of rating groups 1..3); unregistered SUPIs use 1, 2, 3
+var rgNums sync.Map
+
+// act is the number rating group rg (1..3) of the subscriber carries on the wire.
+func act(supi string, rg int32) int32 {
+	if v, ok := rgNums.Load(supi); ok && rg >= 1 && rg <= 3 {
+		return v.([4]int32)[rg]
+	}
+	return rg
+}
+
+// logi maps a number seen on the wire back to the harness's rating group 1..3 (other numbers: unchanged).
+func logi(supi string, n int32) int32 {
+	if v, ok := rgNums.Load(supi); ok {
+		a := v.([4]int32)
+		for rg := int32(1); rg <= 3; rg++ {
+			if a[rg] == n {
+				return rg
+			}
+		}
+		if n >= 1 && n <= 3 {
+			return -n // a number that is none of this subscriber's: must not be taken for one of its groups
+		}
+	}
+	return n
+}
+
+// logicalReq is the request that was sent, with rating groups as the harness counts them.
+func logicalReq(supi string, r *models.ChfConvergedChargingChargingDataRequest) *models.ChfConvergedChargingChargingDataRequest {
+	c := *r
+	c.MultipleUnitUsage = append([]models.ChfConvergedChargingMultipleUnitUsage{}, r.MultipleUnitUsage...)
+	for i := range c.MultipleUnitUsage {
+		c.MultipleUnitUsage[i].RatingGroup = logi(supi, c.MultipleUnitUsage[i].RatingGroup)
+	}
+	return &c
+}
+
+func acctSet(supi string, rg int32, bal int64, cost string) {
+	env.SetAccount(supi, act(supi, rg), bal, cost)
+}
+func acctQuota(supi string, rg int32) (int64, error) { return env.Quota(supi, act(supi, rg)) }
+func acctAdd(supi string, rg int32, amt int64) error { return env.AddQuota(supi, act(supi, rg), amt) }
+
+// snapshot is verifapi.Snapshot with the per-rating-group maps keyed by the harness's rating groups 1..3.
+func snapshot(supi string) verifapi.Snap {
+	s := verifapi.Snapshot(supi)
+	if _, ok := rgNums.Load(supi); !ok {
+		return s
+	}
+	r, u, t, q := map[int32]int64{}, map[int32]uint32{}, map[int32]int{}, map[int32]uint32{}
+	for k, v := range s.Reserved {
+		r[logi(supi, k)] = v
+	}
+	for k, v := range s.UnitCost {
+		u[logi(supi, k)] = v
+	}
+	for k, v := range s.RatingType {
+		t[logi(supi, k)] = v
+	}
+	for k, v := range s.ReqNum {
+		q[logi(supi, k)] = v
+	}
+	s.Reserved, s.UnitCost, s.RatingType, s.ReqNum = r, u, t, q
+	return s
 }
 
 // ------------------------------------------------------------- world state
@@ -161,9 +231,12 @@ func NewWorld(hst Hist) *World {
 		} else {
 			st.supi = env.NewSupi()
 		}
+		if len(hst.RGNums) == 3 {
+			rgNums.Store(st.supi, [4]int32{0, hst.RGNums[0], hst.RGNums[1], hst.RGNums[2]})
+		}
 		for i, a := range sp.Acct {
 			rg := int32(i + 1)
-			env.SetAccount(st.supi, rg, a.Bal, fmt.Sprint(a.Cost))
+			acctSet(st.supi, rg, a.Bal, fmt.Sprint(a.Cost))
 			st.credited[rg] = a.Bal
 			st.cost[rg] = int64(a.Cost)
 		}
@@ -223,8 +296,12 @@ func (w *World) buildUnits(op Op, se *sess, withConts bool) ([]models.ChfConverg
 	var out []models.ChfConvergedChargingMultipleUnitUsage
 	var recs []contRec
 	online := map[int32]int64{}
+	supi := ""
+	if len(w.subs) > 0 {
+		supi = w.subs[op.S%len(w.subs)].supi
+	}
 	for _, u := range op.UUs {
-		mu := models.ChfConvergedChargingMultipleUnitUsage{RatingGroup: u.RG, RequestedUnit: &models.RequestedUnit{TotalVolume: u.Req}, UPFID: "upf-" + fmt.Sprint(u.RG)}
+		mu := models.ChfConvergedChargingMultipleUnitUsage{RatingGroup: act(supi, u.RG), RequestedUnit: &models.RequestedUnit{TotalVolume: u.Req}, UPFID: "upf-" + fmt.Sprint(u.RG)}
 		if withConts {
 			for _, c := range u.Conts {
 				tot := c.Tot
@@ -301,7 +378,7 @@ func (w *World) Exec(op Op) *Result {
 		se.t0 = time.Now()
 		code, rb, hd := doHTTP("POST", prefix+"/chargingdata", body, nil)
 		se.t1 = time.Now()
-		res.Status, res.Body, res.Location, res.Req, res.Path = code, rb, hd.Get("Location"), &req, prefix+"/chargingdata"
+		res.Status, res.Body, res.Location, res.Req, res.Path = code, rb, hd.Get("Location"), logicalReq(st.supi, &req), prefix+"/chargingdata"
 		if code == http.StatusCreated {
 			st.notify = npath
 			se.ref, se.live, se.createReq = refOf(res.Location), true, req
@@ -324,7 +401,7 @@ func (w *World) Exec(op Op) *Result {
 		body, _ := json.Marshal(req)
 		path := prefix + "/chargingdata/" + se.ref + "/" + op.K
 		code, rb, hd := doHTTP("POST", path, body, nil)
-		res.Status, res.Body, res.Location, res.Req, res.Path = code, rb, hd.Get("Location"), &req, path
+		res.Status, res.Body, res.Location, res.Req, res.Path = code, rb, hd.Get("Location"), logicalReq(st.supi, &req), path
 		if code >= 200 && code < 300 {
 			se.conts = append(se.conts, recs...)
 			for rg, vol := range online {
@@ -347,10 +424,10 @@ func (w *World) Exec(op Op) *Result {
 		if rg < 1 || rg > 3 {
 			rg = 1
 		}
-		if err := env.AddQuota(st.supi, rg, op.Amt); err == nil {
+		if err := acctAdd(st.supi, rg, op.Amt); err == nil {
 			st.credited[rg] += op.Amt
 		}
-		path := fmt.Sprintf("%s/recharging/%s_%d", prefix, st.supi, rg)
+		path := fmt.Sprintf("%s/recharging/%s_%d", prefix, st.supi, act(st.supi, rg))
 		code, rb, _ := doHTTP("PUT", path, nil, nil)
 		res.Status, res.Body, res.Path = code, rb, path
 	default:
@@ -361,6 +438,10 @@ func (w *World) Exec(op Op) *Result {
 	if len(res.Body) > 0 && res.Status >= 200 && res.Status < 300 {
 		var rsp models.ChfConvergedChargingChargingDataResponse
 		if json.Unmarshal(res.Body, &rsp) == nil {
+			// rating groups as the harness counts them
+			for i := range rsp.MultipleUnitInformation {
+				rsp.MultipleUnitInformation[i].RatingGroup = logi(st.supi, rsp.MultipleUnitInformation[i].RatingGroup)
+			}
 			res.Resp = &rsp
 			if res.Sess != nil {
 				for _, mi := range rsp.MultipleUnitInformation {
